@@ -32,6 +32,10 @@ def configs(tier):
                     checks.reverse()
                 result.append({"preset": preset, "header": 0, "fields": ["ka", "v"], "checks": checks, "family": "both"})
         result.append({"preset": preset, "header": 0, "fields": ["ka", "kb"], "checks": [["u1", "IsUnique", "ka"], ["u2", "IsUnique", "kb"]], "family": "two-unique"})
+        # keys and counted values that differ only in the position of a blank
+        result.append({"preset": preset, "header": 0, "fields": ["kl"], "checks": [["u", "IsUnique", "kl"]], "family": "unique"})
+        for rule in ("kl >= 3", "kl == 2", "kl < 4"):
+            result.append({"preset": preset, "header": 0, "fields": ["kl"], "checks": [["d", "DistinctCount", rule]], "family": "distinct"})
     return result
 
 
